@@ -2,7 +2,7 @@
 from __future__ import annotations
 
 from ..engine import Ctx
-from .runner import actor_contained, own_rule, pair_rule, pause_lock_protocol, pause_rule
+from .runner import actor_contained, own_rule, pair_rule, pause_lock_protocol, pause_rule, rabbit_pause_flag, sync_actor_contained
 
 SUMMARY = "Semaphore discipline: one permit per spawned processing task, released exactly once when the task ends; ownership of the limiter."
 DECIDED = [
@@ -12,9 +12,10 @@ DECIDED = [
     "R-C09-OWN: the limiter is touched only by the runner's loop/callback; actor_run is entered only from process(), process() only from "
     "_process_with_event, which is spawned only by the consume loop; the limiter is Semaphore(tasks_limit) (argument mapping Worker -> runner)",
     "R-C09-PAUSE: on the saturated arm pause -> acquire -> unpause in that order, no pause while a slot is free; in-memory pause is idempotent; "
-    "the consumers' pause lock is a flag: only pause() keeps it, every other acquirer releases it again before its next suspension point (no reader holds it across a fetch)",
+    "the consumers' pause lock is a flag: only pause() keeps it, every other acquirer releases it again before its next suspension point (no reader holds it across a fetch); RabbitMQ: the flag pause() raises is the one "
+    "on_new_message tests and unpause() lowers",
     "R-C09-CONTAIN: the coroutine of actor.fn(...) is awaited in place by actor_run (directly or as the operand of asyncio.wait_for): nothing detaches the actor body "
-    "from the processing task whose end frees the slot",
+    "from the processing task whose end frees the slot; a synchronous actor runs in an executor that the asyncify wrapper creates and shuts down (waits for) around that one call",
 ]
 NOT_DECIDED = ["'makes progress / every job eventually executed' (liveness)", "lost wake-ups inside asyncio primitives"]
 ASSUMPTIONS = ["asyncio.Semaphore counts permits correctly; a done-callback runs exactly once when its task ends (normally, by exception or cancellation)"]
@@ -25,4 +26,6 @@ def run(ctx: Ctx) -> None:
     own_rule(ctx, "R-C09-OWN")
     pause_rule(ctx, "R-C09-PAUSE")
     pause_lock_protocol(ctx, "R-C09-PAUSE")
+    rabbit_pause_flag(ctx, "R-C09-PAUSE")
     actor_contained(ctx, "R-C09-CONTAIN")
+    sync_actor_contained(ctx, "R-C09-CONTAIN")
